@@ -265,10 +265,18 @@ def gen_case(rng, tier, force=None):
     nthr = rng.choice([1, 2, 2, 3])
     nsig = rng.choice([1, 1, 2])
     sigs = SIGS[:nsig]
+    regsigs = sigs
+    if kind == "mix" and rng.random() < 0.25:
+        # signal numbers at the edges of the per-signal bookkeeping: the lowest and highest valid ones, and numbers the library must refuse
+        # (>= _NSIG): a refused registration changes nothing, an accepted one at the top of the range works like any other
+        edge = rng.choice([1, 34, 63, 64, 64, 65, 65, 66, 200])
+        if edge <= 64:
+            sigs = sigs + [edge]        # deliverable
+        regsigs = sigs + [edge]
     nint = rng.randint(2, 6)
     ints = []
     for i in range(nint):
-        ints.append({"id": i, "thr": rng.randrange(nthr), "sig": rng.choice(sigs), "excl": rng.random() < 0.4, "this": rng.random() < 0.35})
+        ints.append({"id": i, "thr": rng.randrange(nthr), "sig": rng.choice(regsigs), "excl": rng.random() < 0.4, "this": rng.random() < 0.35})
     if kind == "handoff":
         # an exclusive this-thread (or process-wide) interest plus others for the same signal
         ints[0].update(excl=True, this=rng.random() < 0.6)
